@@ -1,19 +1,20 @@
 #!/bin/sh
 # Confirms a seeded change delivered by a sub-agent and files it under /verif/seeded/<name>/.
 #   tools/confirm_seeded.sh SRC_DIR NAME PROPERTY "NEEDS (free text)" CHECK-ID...
-# In the scratch worktree /tmp/mh/repo: (c) demo passes without the change, (a) the existing suite
+# In the scratch worktree $MH/repo (default /tmp/mh): (c) demo passes without the change, (a) the existing suite
 # passes with it, (b) the demo fails with it. Then the listed checks are run against it.
 set -e
 HERE="$(cd "$(dirname "$0")/.." && pwd)"
 SRC="$1"; NAME="$2"; PROP="$3"; NEEDS="$4"; shift 4
-[ -d /tmp/mh/repo ] || "$HERE/tools/mutharness.sh" init
+MH="${MH:-/tmp/mh}"; export MH
+[ -d $MH/repo ] || "$HERE/tools/mutharness.sh" init
 "$HERE/tools/mutharness.sh" sync >/dev/null 2>&1
 D="$HERE/seeded/$NAME"; mkdir -p "$D"
 cp "$SRC/patch.diff" "$D/patch.diff"
 [ -f "$SRC/notes.md" ] && cp "$SRC/notes.md" "$D/notes.md"
 DEMOS=$(ls "$SRC"/*.rs 2>/dev/null)
 [ -n "$DEMOS" ] || { echo "no demo .rs in $SRC"; exit 1; }
-R=/tmp/mh/repo
+R=$MH/repo
 git -C $R checkout -q -- . ; git -C $R clean -fdq -e target
 # a demo may need a dev-dependency (serde_json): that edit belongs to the demo, not to patch.diff
 if [ -f "$SRC/cargo_toml_dev_dep.diff" ]; then cp "$SRC/cargo_toml_dev_dep.diff" "$D/"; git -C $R apply "$SRC/cargo_toml_dev_dep.diff"; fi
@@ -36,7 +37,7 @@ echo "$RES"
 python3 - "$D" "$PROP" "$NEEDS" "$A" "$B" "$C" "$RES" "$@" <<'PY'
 import json,sys,re
 d,prop,needs,a,b,c,res=sys.argv[1:8]; checks=sys.argv[8:]
-caught=re.findall(r'\[(C\d+)\] CAUGHT: VIOLATION property=\S+ replay=\S+ rule=(\S+)',res)
+caught=[(k,r or 'process_killed') for k,r in re.findall(r'\[(C\d+)\] CAUGHT: VIOLATION property=\S+ replay=\S+(?: rule=(\S+))?',res)]
 missed=re.findall(r'\[(C\d+)\] missed',res)
 ok_c=('FAILED' not in c and 'failed; ' in c and all(int(x)==0 for x in re.findall(r'(\d+) failed',c)))
 ok_a=all(int(x)==0 for x in re.findall(r'(\d+) failed',a)) and 'test result' in a
